@@ -161,6 +161,34 @@ impl EventGen for Container {
                 let res = el.generate_events(context);
                 context.inc_depth()?;
                 res
+            } else if self.0.is_graphics_element()
+                && !matches!(self.0.name.as_str(), "text" | "reuse")
+                && inner_text.is_none()
+            {
+                // A shape which holds child elements (`<title>`, `<animate>`, ...) is
+                // laid out like any other shape; its children are kept inside it.
+                let mut el = self.0.clone();
+                if let Some((start, _end)) = self.0.event_range {
+                    el.event_range = Some((start, start)); // emulate an Empty element
+                }
+                context.dec_depth()?;
+                let res = el.generate_events(context);
+                context.inc_depth()?;
+                let (shape_events, bbox) = res?;
+                let (child_events, _) = process_events(inner_events, context)?;
+                let mut events = OutputList::new();
+                let mut children = Some(child_events);
+                for ev in shape_events.iter() {
+                    match (ev, &children) {
+                        (OutputEvent::Empty(e), Some(_)) if e.name == self.0.name => {
+                            events.push(OutputEvent::Start(e.clone()));
+                            events.extend(&children.take().unwrap_or_default());
+                            events.push(OutputEvent::End(e.name.clone()));
+                        }
+                        _ => events.push(ev.clone()),
+                    }
+                }
+                Ok((events, bbox))
             } else {
                 let mut new_el = self.0.clone();
                 // Special case <svg> elements with an xmlns attribute - passed through
